@@ -694,6 +694,25 @@ func reviewedLoop(p *Program, pkg *packages.Package, fd *ast.FuncDecl, l *ast.Fo
 		if _, isFor := p.Parent(p.Parent(l)).(*ast.ForStmt); isFor {
 			inner = true
 		}
+		// "the callee's first token is consumed" also needs the callee to get as far as reading it: nothing may
+		// return from the function before its outer loop is entered (a depth or budget check in front of the loop
+		// hands control back without a token having been read, and this loop then never ends)
+		outer, _ := p.Parent(p.Parent(l)).(*ast.ForStmt)
+		early := false
+		if outer != nil {
+			ast.Inspect(fd.Body, func(n ast.Node) bool {
+				if _, nested := n.(*ast.FuncLit); nested {
+					return false
+				}
+				if ret, ok := n.(*ast.ReturnStmt); ok && ret.Pos() < outer.Pos() {
+					early = true
+				}
+				return true
+			})
+		}
+		if early {
+			return "", false
+		}
 		if hasSelf && inner {
 			// the arithmetic argument needs exactly the guard facts C07/assoc establishes at the recursive call
 			tmp := NewRun("C07", "quick")
